@@ -2,6 +2,7 @@ package world
 
 import (
 	"crypto/tls"
+	"errors"
 	"fmt"
 	"runtime/debug"
 	"strings"
@@ -293,18 +294,22 @@ func ErrClass(err error) string {
 	if err == nil {
 		return "ok"
 	}
-	if v, ok := err.(saml2.ErrVerification); ok {
-		return "verification(" + ErrClass(v.Cause) + ")"
+	var ev saml2.ErrVerification
+	if errors.As(err, &ev) && ev.Cause != nil {
+		return "verification(" + ErrClass(ev.Cause) + ")"
 	}
-	switch e := err.(type) {
-	case saml2.ErrMissingElement:
-		return "missing(" + e.Tag + "," + e.Attribute + ")"
-	case saml2.ErrInvalidValue:
-		return "invalid(" + e.Key + "," + e.Reason + ")"
-	case saml2.ErrParsing:
-		return "parsing(" + e.Tag + ")"
+	var em saml2.ErrMissingElement
+	var ei saml2.ErrInvalidValue
+	var ep saml2.ErrParsing
+	switch {
+	case errors.As(err, &em):
+		return "missing(" + em.Tag + "," + em.Attribute + ")"
+	case errors.As(err, &ei):
+		return "invalid(" + ei.Key + "," + ei.Reason + ")"
+	case errors.As(err, &ep):
+		return "parsing(" + ep.Tag + ")"
 	}
-	if err == dsig.ErrMissingSignature {
+	if errors.Is(err, dsig.ErrMissingSignature) {
 		return "missing-signature"
 	}
 	return "other"
